@@ -252,4 +252,14 @@ theorem arr_run_refines (d : α) (ops : List (ArrOp α)) : ∀ (st : ArrSt α), 
     rw [← (arr_step_refines d op st h).1]
     exact ih _ (arr_step_inv d op st h)
 
+theorem arr_outs_refine (d : α) (ops : List (ArrOp α)) : ∀ (st : ArrSt α), ArrInv st →
+    arrOuts d ops st = arrSpecOuts d ops (arrAbs st) := by
+  induction ops with
+  | nil => intro st _; rfl
+  | cons op ops ih =>
+    intro st h
+    simp only [arrOuts, arrSpecOuts]
+    rw [← (arr_step_refines d op st h).1, ← (arr_step_refines d op st h).2]
+    rw [ih _ (arr_step_inv d op st h)]
+
 end Qentem.Seq
